@@ -1,4 +1,5 @@
 """C07 — RTR PDUs survive the wire; broken streams end in errors, not hangs (spec/RtrLayout.tla, RtrWire.tla)."""
+import json
 import os
 import vlib
 from vlib import Check, tlc, tlc_must_hold, vh, workdir, write_ndjson, cfg_with
@@ -48,6 +49,30 @@ def run(tier, seed):
         tc = c06.trace_cfg(wd, f"session-trace{k}.cfg", ci, sm, w, cs_)
         vlib.trace_rounds(c, "Trace_RtrSession", "rtrsession", [seed * 100 + 50 + k], 60 if quick else 300, None, cfg=tc,
                           extra_args=["--cli-init", ci, "--srv-max", sm, "--window", w, "--cli-start", cs_])
+
+    # ... and the session as a reader of whole replies: RtrClientStream.tla - a cache that speaks one version and deviates in one
+    # place (version, type or length field of one PDU of a reply or of a Serial Notify, or the stream ends early), up to
+    # MaxSteps update() calls; every conversation goes through the real Client on a scripted socket that hands out 7 octets a time
+    ms = 2 if quick else 3
+    cfgp = cfg_with(wd, "MC_RtrClientStream.cfg", "clientstream.cfg", [("MaxSteps = 2", f"MaxSteps = {ms}")])
+    r = tlc("MC_RtrClientStream", cfgp, workers=workers, xmx="6g", timeout=3000)
+    tlc_must_hold(r, "RtrClientStream")
+    vlib.require_coverage(r, ["StartFirst", "Wait", "Query", "ReadFirst", "ReadNext"], "RtrClientStream")
+    c.add_tlc(r, "the client's reader of whole replies: cache version x start with/without state x conforming reply (data, Cache Reset, "
+                 "version downgrade) or one deviation (version / type / length of one PDU, Serial Notify, early end between or inside PDUs): "
+                 "OkMeansClean ErrMeansDirty StopsAtBad SettledIsCache VersionStable + liveness Terminates")
+    cs_cases = r.replay
+    s3 = vh(["replay", "rtrclient", write_ndjson(os.path.join(wd, "clientstream.ndjson"), cs_cases)], timeout=3000)
+    c.add_harness(s3, "every conversation through the real Client (update/serial/reset, first-reply readers, check_version): the outcome of every "
+                      "step, the items handed over, and the octets consumed up to the deviating PDU")
+
+    def corrupt_cs(cs):
+        for x in cs:
+            if x["dirty"] and x["verdicts"][-1][0] == "err" and not x["hist"][-1]["ends"]:
+                y = json.loads(json.dumps(x))
+                y["verdicts"][-1] = ["ok", 1]
+                return y
+    vlib.selfcheck_replay(c, "rtrclient", cs_cases, corrupt_cs, "clientstream.verdict")
 
     def corrupt(cs):
         for x in cs:
